@@ -1493,8 +1493,8 @@ func (d *c11Driver) sweep(types []byte, pts []packet.Type, forges []string, thor
 						if plain, ok := d.record[recKey]; ok {
 							run.Count("sequence_vs_plain_pairs", 1)
 							if plain != base {
-								run.Violation(fmt.Sprintf("C11:unproven-handshake|after=login|variant=%s|effect=command-outcome-differs|cmd=%s", d.state.SeqKind, c11CmdName(ct, pt)+d.suffix),
-									map[string]any{"sequence": d.state, "command_type": ct, "requester": req, "body_kind": kind, "plain_requester": plain, "after_sequence": base, "outcome": bout})
+								run.Violation(fmt.Sprintf("C11:unproven-handshake|after=login|variant=%s|effect=command-outcome-differs", d.state.SeqKind),
+									map[string]any{"sequence": d.state, "command": c11CmdName(ct, pt) + d.suffix, "command_type": ct, "requester": req, "body_kind": kind, "plain_requester": plain, "after_sequence": base, "outcome": bout})
 							}
 						}
 					}
